@@ -177,3 +177,36 @@ def problem(draw, min_streams=1, max_streams=8, multi_zone=None, with_utilities=
     if opts:
         case["options"] = opts
     return case
+
+
+@st.composite
+def gcc_problem(draw, max_rows=10, with_utilities=True, max_hot=3, max_cold=3, max_both=1, isothermal_utils=None, zones=("P1",)):
+    """A stream set built to realise a drawn grand-composite shape: per interval of a descending temperature list one
+    cold (heat sink) or hot (heat source) stream carries the drawn step of the residual, so pockets - several per side,
+    nested, and closing exactly on existing rows because steps repeat (+-4, +-8, +-20) - appear by construction rather
+    than by luck.  A 'carrier' pair (one hot and one cold stream of equal CP over the whole range) is added in half of
+    the cases so that intervals hold several streams.  Contributions are uniform (0 or 5 K) so the shifted grid is the
+    drawn one."""
+    n = draw(st.integers(4, max_rows))
+    top = float(draw(st.integers(60, 380)))
+    T = [top]
+    for g in draw(st.lists(st.sampled_from([1.0, 2.0, 5.0, 10.0, 20.0, 50.0]), min_size=n - 1, max_size=n - 1)):
+        T.append(T[-1] - g)
+    steps = draw(st.lists(st.sampled_from([0, 4, -4, 8, -8, 20, -20, 12, -12, 40, -40, 1, -1]), min_size=n - 1, max_size=n - 1))
+    dt = draw(st.sampled_from([0.0, 5.0, 5.0]))
+    ss = []
+    for i, d in enumerate(steps):  # d > 0: the residual falls by d across interval i (a sink), d < 0: a source
+        if d == 0:
+            continue
+        hi, lo = T[i], T[i + 1]
+        if d > 0:
+            ss.append({"zone": draw(st.sampled_from(list(zones))), "name": f"C{i}", "t_supply": round(lo - dt, 6), "t_target": round(hi - dt, 6), "heat_flow": float(d) * 2.5, "dt_cont": dt, "htc": 1.0})
+        else:
+            ss.append({"zone": draw(st.sampled_from(list(zones))), "name": f"H{i}", "t_supply": round(hi + dt, 6), "t_target": round(lo + dt, 6), "heat_flow": float(-d) * 2.5, "dt_cont": dt, "htc": 1.0})
+    if not ss or draw(st.booleans()):
+        q = float(draw(st.sampled_from([100.0, 640.0])))
+        ss.append({"zone": zones[0], "name": "Hc", "t_supply": round(T[0] + dt, 6), "t_target": round(T[-1] + dt, 6), "heat_flow": q, "dt_cont": dt, "htc": 1.0})
+        ss.append({"zone": zones[0], "name": "Cc", "t_supply": round(T[-1] - dt, 6), "t_target": round(T[0] - dt, 6), "heat_flow": q, "dt_cont": dt, "htc": 1.0})
+    case = {"streams": draw(st.permutations(ss))}
+    case["utilities"] = draw(utilities(T, max_hot, max_cold, max_both, isothermal_utils, thirds=False)) if with_utilities else []
+    return case
